@@ -824,9 +824,16 @@ func (c *Cursor) Forward(ctx context.Context) error {
 		if err != nil {
 			return fmt.Errorf("load: %w", err)
 		}
+		depth := len(c.path)
 		pe.linkIndex++
 		c.path = append(c.path, pathEntry{node: node})
-		return c.Min(ctx)
+		err = c.Min(ctx)
+		if err != nil {
+			// undo the partial move, so that Forward can be retried
+			c.path = c.path[:depth]
+			c.path[depth-1].linkIndex--
+		}
+		return err
 	} else {
 		if pe.linkIndex+1 < len(node.Key) {
 			pe.linkIndex++
@@ -857,8 +864,14 @@ func (c *Cursor) Backward(ctx context.Context) error {
 		if err != nil {
 			return fmt.Errorf("load: %w", err)
 		}
+		depth := len(c.path)
 		c.path = append(c.path, pathEntry{node: node})
-		return c.Max(ctx)
+		err = c.Max(ctx)
+		if err != nil {
+			// undo the partial move, so that Backward can be retried
+			c.path = c.path[:depth]
+		}
+		return err
 	} else {
 		if pe.linkIndex > 0 {
 			pe.linkIndex--
